@@ -68,6 +68,11 @@ def gen(seed, tier):
             if l["engine"] == "custom":
                 l["custom_fine"] = True  # a user engine that breeds with Individual.clone() and evaluates the clones
                 pl["entry"] = "tree"
+    if seed % 9 == 5 and "levels" in pl and pl["gsc"]["kind"] != "precision":
+        # the innermost problem is a user-defined Problem with its own order (closer to a target value is better)
+        for st in pl["stacks"]:
+            st["innermost_target"] = opt + (-1.0 if pl["maximize"] else 1.0) * 0.05 * minr * minr
+            st.pop("use_cache", None)
     if seed % 83 == 11:
         # long-lived wrapper instances: 10^3 .. 3*10^5 evaluations went through the stack before this tree
         for st in pl["stacks"]:
